@@ -306,6 +306,8 @@ def _tc_spec(cfg, i, path):
 
 # ------------------------------------------------------------------ whole queries against Python evaluation of the same expression (bounded, real SQLite)
 from contracts import c01_queries as Q
+from contracts import c01_dates as D
+from contracts import c01_compkeys as CK
 
 CONTRACTS = [
     Contract('truth_test_and_not', ['pony.orm.sqltranslation:NumericMixin.nonzero', 'pony.orm.sqltranslation:NumericMixin.negate', 'pony.orm.sqltranslation:StringMixin.nonzero',
@@ -321,4 +323,12 @@ CONTRACTS = [
     Contract('queries_vs_python', ['pony.orm.sqltranslation:SQLTranslator.construct_sql_ast', 'pony.orm.sqltranslation:SQLTranslator.__init__', 'pony.orm.core:Query._actual_fetch',
                                    'pony.orm.sqltranslation:AttrSetMonad', 'pony.orm.sqltranslation:QuerySetMonad', 'pony.orm.sqltranslation:CmpMonad.getsql'],
              Q.configs, Q.case, [('query_result_equals_python_evaluation', Q.spec)], level='bounded', bound=Q.BOUND),
+    Contract('date_operations_vs_python', ['pony.orm.sqltranslation:DateMixin', 'pony.orm.sqltranslation:DatetimeMixin', 'pony.orm.sqltranslation:TimedeltaMixin',
+                                           'pony.orm.dbproviders.sqlite:SQLiteBuilder.datetime_add', 'pony.orm.dbproviders.sqlite:SQLiteBuilder.DATE_ADD', 'pony.orm.dbproviders.sqlite:SQLiteBuilder.DATE_SUB',
+                                           'pony.orm.dbproviders.sqlite:SQLiteBuilder.DATETIME_ADD', 'pony.orm.dbproviders.sqlite:SQLiteBuilder.DATETIME_SUB',
+                                           'pony.orm.dbproviders.sqlite:SQLiteBuilder.DATETIME_DIFF', 'pony.orm.dbproviders.sqlite:SQLiteBuilder.DATE_DIFF'],
+             D.configs, D.case, [('equals_python_evaluation_or_refused', D.spec)], level='bounded', bound=D.BOUND),
+    Contract('composite_key_navigation_vs_python', ['pony.orm.sqltranslation:JoinedTableRef.make_join', 'pony.orm.sqltranslation:AttrMonad', 'pony.orm.sqltranslation:ObjectAttrMonad',
+                                                    'pony.orm.sqltranslation:Subquery.join_table'],
+             CK.configs, CK.case, [('equals_python_evaluation_or_refused', CK.spec)], level='bounded', bound=CK.BOUND),
 ]
